@@ -176,7 +176,7 @@ def seed_for(batch_seed: int, i: int) -> int:
 
 def generate(prop, seed: int, opts: dict | None = None) -> dict:
     rng = random.Random(seed)
-    plan = prop.generate(rng, opts or {})
+    plan = prop.generate(rng, {**(opts or {}), "_seed": seed})
     plan["seed"] = seed
     plan["property"] = prop.ID
     return plan
